@@ -337,11 +337,108 @@ impl<'a, 'tcx> Cx<'a, 'tcx> {
         J::A(b.iter().map(|x| J::I(*x as i128)).collect())
     }
 
+    /// Exact rendering of an allocation (bytes, and what every pointer in it points to).
+    fn alloc_render(&self, id: rustc_middle::mir::interpret::AllocId, depth: usize, out: &mut String) {
+        use rustc_middle::mir::interpret::GlobalAlloc;
+        let tcx = self.tcx;
+        if depth > 12 {
+            out.push_str("<deep>");
+            return;
+        }
+        match tcx.try_get_global_alloc(id) {
+            Some(GlobalAlloc::Memory(a)) => {
+                let a = a.inner();
+                let n = a.size().bytes() as usize;
+                let b = a.inspect_with_uninit_and_ptr_outside_interpreter(0..n);
+                out.push_str("mem[");
+                for x in b {
+                    let _ = write!(out, "{:02x}", x);
+                }
+                out.push(']');
+                for (off, prov) in a.provenance().ptrs().iter() {
+                    let _ = write!(out, "@{}->", off.bytes());
+                    self.alloc_render(prov.alloc_id(), depth + 1, out);
+                }
+            }
+            Some(GlobalAlloc::Function { instance }) => {
+                let _ = write!(out, "fn<{}>", with_no_trimmed_paths!(format!("{}", instance)));
+            }
+            Some(GlobalAlloc::Static(d)) => {
+                let _ = write!(out, "static<{}>", path(tcx, d));
+            }
+            Some(other) => {
+                let _ = write!(out, "other<{}>", with_no_trimmed_paths!(format!("{:?}", other)));
+            }
+            None => out.push_str("<dangling>"),
+        }
+    }
+
+    /// Exact value of a constant operand, for the optimised-MIR fingerprints (no truncation, no allocation ids).
+    fn konst_exact(&self, c: &ConstOperand<'tcx>) -> String {
+        use rustc_middle::mir::interpret::Scalar;
+        let tcx = self.tcx;
+        let mut s = String::new();
+        match c.const_.eval(tcx, self.env, c.span) {
+            Ok(ConstValue::Scalar(Scalar::Int(i))) => {
+                let _ = write!(s, "int:{:?}", i);
+            }
+            Ok(ConstValue::Scalar(Scalar::Ptr(ptr, _))) => {
+                let (prov, off) = ptr.prov_and_relative_offset();
+                let _ = write!(s, "ptr+{}:", off.bytes());
+                self.alloc_render(prov.alloc_id(), 0, &mut s);
+            }
+            Ok(ConstValue::ZeroSized) => s.push_str("zst"),
+            Ok(ConstValue::Slice { alloc_id, meta }) => {
+                let _ = write!(s, "slice[{}]:", meta);
+                self.alloc_render(alloc_id, 0, &mut s);
+            }
+            Ok(ConstValue::Indirect { alloc_id, offset }) => {
+                let _ = write!(s, "ind+{}:", offset.bytes());
+                self.alloc_render(alloc_id, 0, &mut s);
+            }
+            Err(_) => {
+                // generic: cannot be evaluated here; name it
+                match c.const_ {
+                    Const::Unevaluated(uv, _) => {
+                        let _ = write!(s, "uneval:{}:{:?}:{:?}", path(tcx, uv.def), uv.args, uv.promoted);
+                    }
+                    other => {
+                        let _ = write!(s, "sym:{}", with_no_trimmed_paths!(format!("{}", other)));
+                    }
+                }
+            }
+        }
+        if s.len() > 96 {
+            use std::hash::{Hash, Hasher};
+            let mut h = std::collections::hash_map::DefaultHasher::new();
+            s.hash(&mut h);
+            let mut h2 = std::collections::hash_map::DefaultHasher::new();
+            (s.len(), &s, 0x9e37u32).hash(&mut h2);
+            format!("h:{:016x}{:016x}:{}", h.finish(), h2.finish(), s.len())
+        } else {
+            s
+        }
+    }
+
     fn konst(&self, c: &ConstOperand<'tcx>) -> J {
         let tcx = self.tcx;
         let ty = c.const_.ty();
         let mut o: Vec<(&'static str, J)> = Vec::new();
         o.push(("ty", J::S(tystr(ty))));
+        if OMIR_MODE.load(std::sync::atomic::Ordering::Relaxed) {
+            if let ty::FnDef(did, args) = ty.kind() {
+                o.extend(self.fn_ref(*did, args));
+                return J::O(vec![("k", J::O(o))]);
+            }
+            if let Const::Unevaluated(uv, _) = c.const_ {
+                if let Some(p) = uv.promoted {
+                    o.push(("promoted", J::I(p.index() as i128)));
+                    return J::O(vec![("k", J::O(o))]);
+                }
+            }
+            o.push(("cv", J::S(self.konst_exact(c))));
+            return J::O(vec![("k", J::O(o))]);
+        }
         if let ty::FnDef(did, args) = ty.kind() {
             o.extend(self.fn_ref(*did, args));
             return J::O(vec![("k", J::O(o))]);
@@ -664,7 +761,7 @@ impl<'a, 'tcx> Cx<'a, 'tcx> {
             if let Some(n) = &names[l.index()] {
                 lo.push(("name", J::S(n.clone())));
             }
-            if d.is_user_variable() {
+            if matches!(d.local_info, ClearCrossCrate::Set(_)) && d.is_user_variable() {
                 lo.push(("user", J::B(true)));
             }
             locals.push(J::O(lo));
@@ -970,6 +1067,58 @@ impl rustc_driver::Callbacks for Cb {
 struct Plain;
 impl rustc_driver::Callbacks for Plain {}
 
+// ------------------------------------------------------------------ optimised-MIR fingerprints
+//
+// Second mode (VERIF_OMIR_OUT): serialise `optimized_mir` of every function and closure of the crate.  Run with
+// -Zmir-opt-level=3 -Zinline-mir the compiler's own simplifications (inlining of small helpers, constant
+// propagation, CFG simplification, copy propagation, GVN) act as a normaliser; engine/equiv.py canonicalises the
+// result further and compares it with the table recorded for the reviewed tree.
+
+static OMIR_MODE: std::sync::atomic::AtomicBool = std::sync::atomic::AtomicBool::new(false);
+
+struct Omir {
+    out: String,
+}
+
+impl rustc_driver::Callbacks for Omir {
+    fn after_analysis<'tcx>(
+        &mut self,
+        _compiler: &rustc_interface::interface::Compiler,
+        tcx: TyCtxt<'tcx>,
+    ) -> Compilation {
+        let mut out = String::new();
+        let mut n = 0usize;
+        for ldid in tcx.mir_keys(()).iter() {
+            let did = ldid.to_def_id();
+            let kind = tcx.def_kind(did);
+            if !matches!(kind, DefKind::Fn | DefKind::AssocFn | DefKind::Closure | DefKind::SyntheticCoroutineBody) {
+                continue;
+            }
+            let body: &Body<'tcx> = tcx.optimized_mir(did);
+            let promoted = tcx.promoted_mir(did);
+            let mut o: Vec<(&'static str, J)> = Vec::new();
+            o.push(("rec", J::s("obody")));
+            o.push(("def", J::S(path(tcx, did))));
+            o.push(("kind", J::S(format!("{:?}", kind))));
+            o.push(("ret", J::S(tystr(body.local_decls[RETURN_PLACE].ty))));
+            let env = TypingEnv::post_analysis(tcx, did);
+            let cx = Cx { tcx, def: *ldid, body, env };
+            o.extend(cx.body_json(Some(promoted)));
+            J::O(o).w(&mut out);
+            out.push('\n');
+            n += 1;
+        }
+        let mut o: Vec<(&'static str, J)> = Vec::new();
+        o.push(("rec", J::s("ometa")));
+        o.push(("bodies", J::I(n as i128)));
+        J::O(o).w(&mut out);
+        out.push('\n');
+        std::fs::write(&self.out, out).expect("verif-driver: cannot write omir");
+        eprintln!("verif-driver: wrote {} optimised bodies to {}", n, self.out);
+        Compilation::Continue
+    }
+}
+
 fn main() {
     let mut args: Vec<String> = std::env::args().collect();
     // RUSTC_WORKSPACE_WRAPPER: argv[1] is the real rustc path; drop it.
@@ -994,7 +1143,12 @@ fn main() {
     }
     let is_test = args.iter().any(|a| a == "--test");
     let out = std::env::var("VERIF_FACTS_OUT").ok();
-    if crate_name == want && is_lib && !is_test && out.is_some() {
+    let omir = std::env::var("VERIF_OMIR_OUT").ok();
+    if crate_name == want && is_lib && !is_test && omir.is_some() {
+        OMIR_MODE.store(true, std::sync::atomic::Ordering::Relaxed);
+        let mut cb = Omir { out: omir.unwrap() };
+        rustc_driver::run_compiler(&args, &mut cb);
+    } else if crate_name == want && is_lib && !is_test && out.is_some() {
         let mut cb = Cb { out: out.unwrap() };
         rustc_driver::run_compiler(&args, &mut cb);
     } else {
